@@ -603,6 +603,10 @@ def fpow(base: Form, exp) -> Form:
             elif a[0] == "grp" and (e * q).denominator == 1 and 1 <= e * q <= 3:
                 for _ in range(int(e * q)):
                     res = res * a[1]
+            elif q.denominator != 1 and e.denominator == 1 and e % 2 == 0 and a[0] not in ("num", "c") and not (a[0] == "fn" and a[1] in ("abs", "exp", "exp10")):
+                # (x**2)**1.5 is |x|**3, not x**3: an even power hides the sign of a real x
+                mm, extra = mono_norm({("fn", "abs", (Form.atom(a),), ()): e * q})
+                res = res * Form({mm: extra})
             else:
                 mm, extra = mono_norm({a: e * q})
                 res = res * Form({mm: extra})
